@@ -43,5 +43,10 @@ def bit_and(a, b):
         if isinstance(cv, int) and cv > 0 and cv & (cv - 1) == 0:       # single bit 2^k
             return mk_int(((u / cv) % 2) * cv)
         if is_pow2_term(v):
-            return mk_int(((u / v) % 2) * v)
+            # x & 2**e: the bit e of x, through the uninterpreted testbit (no division by a symbolic power)
+            return mk_int(z3.If(testbit(u, v.arg(0)), v, z3.IntVal(0)))
+        if z3.is_app(v) and v.decl().kind() == z3.Z3_OP_MUL and v.num_args() == 2 and z3.is_int_value(v.arg(0)) \
+                and v.arg(0).as_long() == 1 and is_pow2_term(v.arg(1)):
+            w = v.arg(1)
+            return mk_int(z3.If(testbit(u, w.arg(0)), w, z3.IntVal(0)))
     raise Unsupported("bitwise and of %r and %r" % (a, b))
